@@ -5,7 +5,16 @@ import time
 
 import cssread
 from props import selgen as G
-from vlib import Check, RunnerPool, compile_job, driver, hexs, log, unhex
+from vlib import Check, RunnerPool, compile_job, hexs, log, unhex
+from vlib import driver as _driver
+
+def driver(lines, chunk=2500):
+    """vlib.driver in chunks: bounded memory of the driver process and of the pipe buffers"""
+    out = []
+    for i in range(0, len(lines), chunk):
+        out += _driver(lines[i:i + chunk])
+    return out
+
 
 EXPECT = ("is-superselector(A,B)=true only if every element context matched by B is matched by A; reflexive; "
           "selector-unify results match only what both operands match; nest/append equal the nested rule; "
